@@ -1,44 +1,69 @@
 /-
-Layer C: operator-precedence printing and parsing of binary-operator expressions over an
-abstract precedence table.  `pr` inserts exactly the parentheses the table requires;
-`PExpr` is the relational semantics of a precedence-climbing parser driven by the same table.
+Layer C: operator-precedence printing and parsing of expressions - binary operators, prefix
+operators, the conditional `c ? a : b` and the postfix forms (call, index, slice, member) - over
+an abstract precedence table.  `pr` inserts exactly the parentheses the table requires; `PExpr`
+is the relational semantics of a precedence-climbing parser driven by the same table.
 -/
 namespace Anko.Pratt
 
 abbrev Op := String
 
 /-- binding powers: `rbp = lbp` for right-associative operators, `lbp + 1` for left-associative
-ones; all operators of one level share the associativity -/
+ones; all operators of one level share the associativity.  Prefix operators bind tighter than
+every binary operator (`ubp`), postfix forms tighter still (`post`).  The conditional uses the
+entry of the spelling "?". -/
 structure Tbl where
   lbp : Op → Nat
   rbp : Op → Nat
+  ubp : Nat
+  post : Nat
   assoc : ∀ o, rbp o = lbp o ∨ rbp o = lbp o + 1
   level : ∀ o q, lbp o = lbp q → rbp o = rbp q
+  unary_tightest : ∀ o, lbp o < ubp
+  postfix_tightest : ubp < post
 
 inductive Tok where
-  | atom (a : Nat) | op (o : Op) | lp | rp
+  | atom (a : Nat) | op (o : Op) | lp | rp | q | colon | lb | rb | dot
   deriving DecidableEq, Repr
 
 inductive Tree where
   | atom (a : Nat)
   | bin (o : Op) (l r : Tree)
+  | un (o : Op) (t : Tree)
+  | tern (c a b : Tree)
+  | call (f x : Tree)
+  | index (b i : Tree)
+  | slice (b i j : Tree)
+  | member (b : Tree)
   deriving DecidableEq, Repr
 
 variable (T : Tbl)
 
 def lctx (o : Op) : Nat := if T.rbp o = T.lbp o then T.lbp o + 1 else T.lbp o
 
+def wrap (own c : Nat) (b : List Tok) : List Tok := if own ≥ c then b else [Tok.lp] ++ b ++ [Tok.rp]
+
 /-- minimal-parenthesis printer: `pr c t` can be read where exposed operators need lbp ≥ c -/
 def pr : Nat → Tree → List Tok
   | _, .atom a => [Tok.atom a]
-  | c, .bin o l r =>
-    let b := pr (lctx T o) l ++ [Tok.op o] ++ pr (T.rbp o) r
-    if T.lbp o ≥ c then b else [Tok.lp] ++ b ++ [Tok.rp]
+  | c, .bin o l r => wrap (T.lbp o) c (pr (lctx T o) l ++ [Tok.op o] ++ pr (T.rbp o) r)
+  | c, .un o t => wrap T.ubp c ([Tok.op o] ++ pr T.ubp t)
+  | c, .tern x a b => wrap (T.lbp "?") c (pr (lctx T "?") x ++ [Tok.q] ++ pr 0 a ++ [Tok.colon] ++ pr (T.rbp "?") b)
+  | _, .call f x => pr T.post f ++ [Tok.lp] ++ pr 0 x ++ [Tok.rp]
+  | _, .index b i => pr T.post b ++ [Tok.lb] ++ pr 0 i ++ [Tok.rb]
+  | _, .slice b i j => pr T.post b ++ [Tok.lb] ++ pr 0 i ++ [Tok.colon] ++ pr 0 j ++ [Tok.rb]
+  | _, .member b => pr T.post b ++ [Tok.dot]
 
 /-- fully parenthesised printer: every operator application in its own parentheses -/
 def prFull : Tree → List Tok
   | .atom a => [Tok.atom a]
   | .bin o l r => [Tok.lp] ++ prFull l ++ [Tok.op o] ++ prFull r ++ [Tok.rp]
+  | .un o t => [Tok.lp] ++ [Tok.op o] ++ prFull t ++ [Tok.rp]
+  | .tern x a b => [Tok.lp] ++ prFull x ++ [Tok.q] ++ prFull a ++ [Tok.colon] ++ prFull b ++ [Tok.rp]
+  | .call f x => [Tok.lp] ++ prFull f ++ [Tok.lp] ++ prFull x ++ [Tok.rp] ++ [Tok.rp]
+  | .index b i => [Tok.lp] ++ prFull b ++ [Tok.lb] ++ prFull i ++ [Tok.rb] ++ [Tok.rp]
+  | .slice b i j => [Tok.lp] ++ prFull b ++ [Tok.lb] ++ prFull i ++ [Tok.colon] ++ prFull j ++ [Tok.rb] ++ [Tok.rp]
+  | .member b => [Tok.lp] ++ prFull b ++ [Tok.dot] ++ [Tok.rp]
 
 mutual
 inductive PExpr : Nat → List Tok → Tree × List Tok → Prop where
@@ -46,23 +71,54 @@ inductive PExpr : Nat → List Tok → Tree × List Tok → Prop where
 inductive PPrim : List Tok → Tree × List Tok → Prop where
   | atom {a ts} : PPrim (Tok.atom a :: ts) (.atom a, ts)
   | paren {ts t ts2} : PExpr 0 ts (t, Tok.rp :: ts2) → PPrim (Tok.lp :: ts) (t, ts2)
+  /-- an operator token where an operand is expected is a prefix operator; its operand is
+  everything that binds at least as tightly as a prefix operator -/
+  | unary {o ts t ts2} : PExpr T.ubp ts (t, ts2) → PPrim (Tok.op o :: ts) (.un o t, ts2)
 inductive PLoop : Nat → Tree → List Tok → Tree × List Tok → Prop where
   | step {m lhs o ts r ts2 R} : T.lbp o ≥ m → PExpr (T.rbp o) ts (r, ts2) →
       PLoop m (.bin o lhs r) ts2 R → PLoop m lhs (Tok.op o :: ts) R
   | stopOp {m lhs o ts} : T.lbp o < m → PLoop m lhs (Tok.op o :: ts) (lhs, Tok.op o :: ts)
+  /-- `lhs ? a : b`: the middle operand is delimited by the colon -/
+  | tern {m lhs ts a ts2 b ts3 R} : T.lbp "?" ≥ m → PExpr 0 ts (a, Tok.colon :: ts2) →
+      PExpr (T.rbp "?") ts2 (b, ts3) → PLoop m (.tern lhs a b) ts3 R → PLoop m lhs (Tok.q :: ts) R
+  | stopQ {m lhs ts} : T.lbp "?" < m → PLoop m lhs (Tok.q :: ts) (lhs, Tok.q :: ts)
+  /-- postfix forms apply to the operand just read, whatever the level -/
+  | call {m lhs ts x ts2 R} : PExpr 0 ts (x, Tok.rp :: ts2) → PLoop m (.call lhs x) ts2 R → PLoop m lhs (Tok.lp :: ts) R
+  | index {m lhs ts i ts2 R} : PExpr 0 ts (i, Tok.rb :: ts2) → PLoop m (.index lhs i) ts2 R → PLoop m lhs (Tok.lb :: ts) R
+  | slice {m lhs ts i ts2 j ts3 R} : PExpr 0 ts (i, Tok.colon :: ts2) → PExpr 0 ts2 (j, Tok.rb :: ts3) →
+      PLoop m (.slice lhs i j) ts3 R → PLoop m lhs (Tok.lb :: ts) R
+  | member {m lhs ts R} : PLoop m (.member lhs) ts R → PLoop m lhs (Tok.dot :: ts) R
   | stopNil {m lhs} : PLoop m lhs [] (lhs, [])
   | stopRp {m lhs ts} : PLoop m lhs (Tok.rp :: ts) (lhs, Tok.rp :: ts)
+  | stopRb {m lhs ts} : PLoop m lhs (Tok.rb :: ts) (lhs, Tok.rb :: ts)
+  | stopColon {m lhs ts} : PLoop m lhs (Tok.colon :: ts) (lhs, Tok.colon :: ts)
 end
 
+/-- `t`, printed for context `c`, may be followed by the operator `p`: every operand still open
+at the right edge of the spelling binds tighter than `p` -/
 def okRest (c : Nat) (t : Tree) (p : Op) : Prop :=
   match t with
-  | .atom _ => True
   | .bin o _ r => if T.lbp o ≥ c then (T.lbp p < T.rbp o ∧ okRest (T.rbp o) r p) else True
+  | .un _ t => if T.ubp ≥ c then (T.lbp p < T.ubp ∧ okRest T.ubp t p) else True
+  | .tern _ _ b => if T.lbp "?" ≥ c then (T.lbp p < T.rbp "?" ∧ okRest (T.rbp "?") b p) else True
+  | _ => True
+
+/-- `t`, printed for context `c`, may be followed by a postfix form: no operand is open at the
+right edge -/
+def okPost (c : Nat) (t : Tree) : Prop :=
+  match t with
+  | .bin o _ _ => T.lbp o < c
+  | .un _ _ => T.ubp < c
+  | .tern _ _ _ => T.lbp "?" < c
+  | _ => True
 
 def OKRest (c : Nat) (t : Tree) : List Tok → Prop
   | Tok.op p :: _ => okRest T c t p
+  | Tok.q :: _ => okRest T c t "?"
+  | Tok.lp :: _ => okPost T c t
+  | Tok.lb :: _ => okPost T c t
+  | Tok.dot :: _ => okPost T c t
   | Tok.atom _ :: _ => False
-  | Tok.lp :: _ => False
   | _ => True
 
 end Anko.Pratt
